@@ -4,6 +4,7 @@ import (
 	"bytes"
 	"fmt"
 	"math/big"
+	"strings"
 	"testing"
 	"time"
 
@@ -99,6 +100,18 @@ func execC08(t *testing.T, sc *kernel.Scenario, trace bool) *kernel.Result {
 				if k >= 0 && len(p.chans) > before {
 					opens = append(opens, openRec{id: p.ids[k], pn: st.Int("pn"), an: st.Int("an"), sideProposer: side, alloc: p.lastAlloc})
 					checkOpened(p, k, side, p.lastAlloc, p.lastData, st)
+				} else if e := p.lastOpenErr; e != nil && strings.Contains(e.Error(), "channel already exists") {
+					// the derived ID collided with an existing channel: only legitimate
+					// if an earlier opening used the same proposer and the same two nonce shares
+					same := false
+					for _, o := range opens {
+						same = same || (o.sideProposer == side && o.pn == st.Int("pn") && o.an == st.Int("an"))
+					}
+					if !same {
+						s.Fail("C08.nonce-share-ignored", "an opening with nonce shares (%d,%d) collided with a channel opened with different shares", st.Int("pn"), st.Int("an"))
+					} else {
+						s.Count("probe.identical_shares_collide", 1)
+					}
 				}
 			case "sub-open":
 				if len(p.chans) > 0 {
@@ -350,8 +363,10 @@ func (p *pair) injectMutant(step int, st *kernel.Step, zWire map[wallet.BackendI
 		var opts = []client.ProposalOpts{nonce}
 		switch m {
 		case "V:funding-agreement-mismatch":
+			// same totals, different distribution (the constructor refuses other totals)
 			fa := a.Balances.Clone()
 			fa[0][0] = new(big.Int).Add(fa[0][0], big.NewInt(1))
+			fa[0][1] = new(big.Int).Sub(fa[0][1], big.NewInt(1))
 			opts = append(opts, client.WithFundingAgreement(fa))
 		case "V:short-parents":
 			parents = parents[:1]
